@@ -10,6 +10,7 @@ def run(ctx):
     import c08_files
     c08_files.overlapping_writes(ctx)     # file stores with the same stem written at overlapping times, then the repairing run
     interrupted_write(ctx, camp.add)
+    shared_function_with_retry(ctx, camp.add)
     import planlevel
     planlevel.equal_constants(ctx, core.use_repo(), True, lambda key, what, replay: camp.add("C03", key, what, replay))
     import depviews
@@ -84,3 +85,66 @@ def interrupted_write(ctx, add):
         if still or got != 101 or a_st.v != 100 or b_st.v != 101:
             add("C03", "interrupted-write", "Ctrl-C during a store write (%s): a write was still in flight when run raised: %s; after a source update the next run "
                 "returned %r and left %r / %r, from scratch: 101, 100 / 101" % (first, still, got, a_st.v, b_st.v), {"max_workers": workers, "first_run": first, "write_lasts_seconds": duration})
+
+
+def shared_function_with_retry(ctx, add):
+    """retry=n, max_errors allowing the run to go on, ONE function object used by several stored calls, one of which keeps failing in the
+    first run: whatever the first run stored is the from-scratch value, and after the fault is gone the next run yields from-scratch
+    outputs and stored values for every call."""
+    import datetime as dt
+    import itertools
+    uj = core.use_repo()
+    for retry in (2, 3):
+        for workers in (1, 3):
+            for bad_pos in (0, 3, 7):
+                clock = itertools.count(1)
+
+                class Mem(uj.ValueStore):
+                    def __init__(self):
+                        self.v, self.t = None, None
+
+                    def read(self):
+                        return self.v
+
+                    def write(self, v):
+                        self.v, self.t = v, dt.datetime(2020, 1, 1) + dt.timedelta(seconds=next(clock))
+
+                    def get_modified_time(self):
+                        return self.t
+                broken = [True]
+
+                def square_plus_one(x):
+                    if broken[0] and x == bad_pos:
+                        raise OSError("cannot compute %d yet" % x)
+                    return x * x + 1
+                plan, reg = uj.Plan(), uj.Registry()
+                calls, stores = [], []
+                for i in range(8):           # independent calls: whatever order the scheduler picks, some of them run after the failing one
+                    c = plan.call(square_plus_one, i)
+                    st = Mem()
+                    reg.add(c, st)
+                    calls.append(c)
+                    stores.append(st)
+                want = [i * i + 1 for i in range(8)]
+                try:
+                    r1 = uj.run(plan, registry=reg, output=calls, retry=retry, max_errors=None, max_workers=workers, progress=None)
+                    first = "returned %r" % (r1,)
+                except uj.CallError:
+                    first = "callerror"
+                after1 = [st.v for st in stores]
+                broken[0] = False
+                try:
+                    r2 = uj.run(plan, registry=reg, output=calls, retry=retry, max_workers=workers, progress=None)
+                except BaseException as e:      # noqa
+                    r2 = "raised %s" % type(e).__name__
+                after2 = [st.v for st in stores]
+                ctx.case(("c03-shared-function-retry", retry, workers, bad_pos))
+                wrong1 = [i for i, v in enumerate(after1) if st_wrong(v, want[i])]
+                if first != "callerror" or wrong1 or r2 != want or after2 != want:
+                    add("C03", "shared-function-retry", "retry=%d, one function used by eight stored calls, call %d failing in the first run (max_errors=None, max_workers=%d): first run %s and left %r; "
+                        "the run after the fault was gone returned %r and left %r; from scratch: %r" % (retry, bad_pos, workers, first, after1, r2, after2, want),
+                        {"retry": retry, "max_workers": workers, "failing_call": bad_pos})
+
+
+def st_wrong(v, want):
+    return v is not None and v != want
